@@ -335,8 +335,12 @@ def execute_graph(w, graph_index, is_async, spec, model, scripts, budgets, probe
                 director.stack.pop()
         director.done = []
         hub.truth = dict(truth)
-        state_before = chk._IN_PROGRESS.get() if hasattr(chk, "_IN_PROGRESS") else None
-        snapshot_before = set(state_before) if state_before else set()
+        def live_marks():
+            """The suspension state that is in force: the live marks (the library drops finished ones lazily)."""
+            state = chk._IN_PROGRESS.get() if hasattr(chk, "_IN_PROGRESS") else None
+            return {(getattr(m, "flow", None), getattr(m, "target", m)) for m in (state or ()) if getattr(m, "active", True)}
+
+        snapshot_before = live_marks()
         # top-level calls
         base_depth = len(inspect.stack(0))
         old_limit = sys.getrecursionlimit()
@@ -362,9 +366,9 @@ def execute_graph(w, graph_index, is_async, spec, model, scripts, budgets, probe
         w.count("probe_events", director.n_events)
         for frame, context, exc in director.done:
             judge_invocation(w, frame, context, exc, model, expect, probe_info, truth, case, graph_index)
-        state_after = chk._IN_PROGRESS.get() if hasattr(chk, "_IN_PROGRESS") else None
-        if (set(state_after) if state_after else set()) != snapshot_before:
-            w.violation("C10/suspension-state-not-empty-between-calls", "in-progress set after the top-level calls: {}".format(state_after), case)
+        state_after = live_marks()
+        if state_after != snapshot_before:
+            w.violation("C10/suspension-state-not-empty-between-calls", "live in-progress marks after the top-level calls: {}".format(state_after), case)
         if graph_index % 40 == 0:
             w.sample({"graph": graph_index, "async": is_async, "scripts": scripts, "invocations": len(director.done),
                       "first_invocations": [(fr.callee_desc, fr.events) for fr, _c, _e in director.done[:4]]})
@@ -373,7 +377,116 @@ def execute_graph(w, graph_index, is_async, spec, model, scripts, budgets, probe
         loaded.unload()
 
 
+OTHER_FLOWS_SOURCE = '''
+import asyncio
+import contextvars
+import threading
+import icontract
+
+
+def pre(x, tag):
+    return HUB.cond("pre:" + tag, {"x": x})
+
+
+@icontract.require(pre, error=lambda tag: KeyError("pre:" + tag))
+def f(x, tag, nested=None):
+    HUB.body("f:" + tag, {"x": x})
+    return nested() if nested is not None else x
+
+
+@icontract.require(pre, error=lambda tag: KeyError("pre:" + tag))
+async def af(x, tag, nested=None):
+    HUB.body("af:" + tag, {"x": x})
+    return (await nested()) if nested is not None else x
+
+
+@icontract.invariant(lambda self: HUB.inv("inv", self))
+class K:
+    def __init__(self):
+        self.v = 1
+
+    def hold(self, nested):
+        HUB.body("hold", {"self": self})
+        return nested()
+
+    def poke(self, tag):
+        HUB.body("poke:" + tag, {"self": self})
+        return tag
+
+    async def ahold(self, nested):
+        HUB.body("ahold", {"self": self})
+        return await nested()
+
+    async def apoke(self, tag):
+        HUB.body("apoke:" + tag, {"self": self})
+        return tag
+
+
+def in_thread_with_copied_context(fn, *args):
+    box = {}
+    ctx = contextvars.copy_context()
+    th = threading.Thread(target=lambda: box.setdefault("r", ctx.run(fn, *args)))
+    th.start()
+    th.join()
+    return box.get("r")
+'''
+
+
+def run_other_flows(w) -> None:
+    """Calls made from ANOTHER thread / task while a contracted call is in flight are not re-entrant calls: fully checked."""
+    import asyncio  # pylint: disable=import-outside-toplevel
+
+    loaded = prog.load_source(OTHER_FLOWS_SOURCE, w.scratch())
+    mod, hub = loaded.module, loaded.hub
+    try:
+        def events():
+            return [(e.kind, e.id) for e in hub.events]
+
+        def expect(tag, want_subseq, case):
+            got = events()
+            w.count("invocations_judged")
+            w.count("other_flow_invocations")
+            w.case(("other-flow", tag))
+            it = iter(got)
+            if not all(any(x == y for y in it) for x in want_subseq):
+                w.violation("C10/call-from-another-flow-not-checked", "{}: the call made from another thread/task while a call on the same "
+                            "function/object was in flight was not fully checked: events {} lack {}".format(tag, got, want_subseq), case)
+
+        # a thread with a copied context, started from the body of a method: the nested call on the same object is checked
+        hub.reset()
+        k = mod.K()
+        hub.reset()
+        k.hold(lambda: mod.in_thread_with_copied_context(k.poke, "t"))
+        expect("method-in-thread-from-method-body", [("body", "hold"), ("inv", "inv"), ("body", "poke:t"), ("inv", "inv")], {"other_flow": "thread-method"})
+        # ... the same function from the body of the function (not marked there at all) and from another thread
+        hub.reset()
+        mod.f(1, "outer", nested=lambda: mod.in_thread_with_copied_context(mod.f, 2, "inner"))
+        expect("function-in-thread-from-function-body", [("cond", "pre:outer"), ("body", "f:outer"), ("cond", "pre:inner"), ("body", "f:inner")],
+               {"other_flow": "thread-function"})
+
+        async def main():
+            k2 = mod.K()
+            hub.reset()
+            await k2.ahold(lambda: asyncio.ensure_future(k2.apoke("task")))
+            expect("method-in-task-from-method-body", [("body", "ahold"), ("inv", "inv"), ("body", "apoke:task"), ("inv", "inv")],
+                   {"other_flow": "task-method"})
+            hub.reset()
+            await k2.ahold(lambda: asyncio.to_thread(k2.poke, "to_thread"))
+            expect("method-in-to_thread-from-method-body", [("body", "ahold"), ("inv", "inv"), ("body", "poke:to_thread"), ("inv", "inv")],
+                   {"other_flow": "to_thread-method"})
+            hub.reset()
+            await mod.af(1, "outer", nested=lambda: asyncio.ensure_future(mod.af(2, "inner")))
+            expect("function-in-task-from-function-body", [("cond", "pre:outer"), ("body", "af:outer"), ("cond", "pre:inner"), ("body", "af:inner")],
+                   {"other_flow": "task-function"})
+
+        asyncio.run(main())
+    finally:
+        loaded.unload()
+
+
 def run(w) -> None:
+    if w.shard == 0:
+        run_other_flows(w)
     n = 20000 if w.tier == "thorough" else 1500
     for i in range(n):
         if i % w.nshards != w.shard:
@@ -384,6 +497,9 @@ def run(w) -> None:
 
 
 def replay(case, w) -> None:
+    if "other_flow" in case:
+        run_other_flows(w)
+        return
     spec = case["prog"]
     scripts = {k: [tuple(c) for c in v] for k, v in case["scripts"].items()}
     execute_graph(w, case.get("graph", 0), case.get("async", False), spec, Model(spec), scripts, case["budgets"], case["probe_info"],
